@@ -9,6 +9,7 @@ STYLES = {
  "mixed": "Make them the kind of mistake a maintainer could plausibly make in a refactoring, an optimisation or a feature addition, and make them DIFFERENT IN KIND from each other: for example one plain slip (wrong sign, swapped arguments, off-by-one, dropped branch, wrong constant or unit, wrong comparison), one that needs a particular combination of features, configuration or call order to show, and one that is confined to some region of the input space (a class of geometries, conventions, ranges, sizes) that is ordinary but easy to overlook.",
  "clauses": "Read the statement and the quantifier as a LIST of separate claims (every sentence, every sub-clause after a comma or 'and', every item of the quantifier, including the ones mentioned last or in parentheses). Choose THREE DIFFERENT claims, preferring the least prominent ones and those that none of the earlier ideas below touches, and for each make one realistic change (the kind a maintainer could make in a refactoring, an optimisation, a bug fix elsewhere or a feature addition) that breaks exactly that claim while the more prominent behaviour stays intact. State in metaN.json which claim (quote it) the change breaks.",
  "numeric": "Make them changes of the NUMERIC kind, each of a different sort: (1) a tolerance, threshold, epsilon, band, rounding or unit conversion that is changed, dropped, or applied at a different place or to a different quantity than before (for example an absolute tolerance that becomes relative, radians compared with degrees, a check done before instead of after a normalisation); (2) a change to angle normalisation / modular arithmetic / range reduction / sign handling (which representative of an angle is returned or compared, what happens at +-pi, at 0, at multiples of 2*pi, with negative values); (3) a change of precision or of the order of floating-point operations (f32 instead of f64 somewhere, an algebraically equivalent but numerically worse formula, an accumulated instead of a direct computation) that stays harmless for ordinary inputs but exceeds the accuracy or the exactness the property states for some inputs of its quantifier. Each must be visible to a user who checks the property at the accuracy it states - not merely a difference in the last bits.",
+ "stateful": "Make them changes whose effect depends on HISTORY, STATE, ORDER or CONCURRENCY rather than on the arguments of a single call alone, each of a different sort: (1) something remembered between calls that should not be, or that is keyed too coarsely (a cache or memo table, a lazily initialised static, a thread-local, a field updated through interior mutability, a 'same as last time' shortcut), so that an answer depends on which calls came before, on which other robot / constraints / body object was used before, or on which thread runs the call; (2) a change in how work is split, ordered, short-circuited or merged (parallel iteration, early exit, find-any versus find-first, sort stability, de-duplication, iteration order of a hash map, reuse of a buffer), so that a result depends on the pool size, the scheduling or the order of the inputs; (3) a change that makes an object's behaviour depend on how or when it was configured (constructor versus later update of a public field or call of an update method, a value captured at construction time that should be read at call time or the reverse, a clone that shares what it should copy). The demonstration may need several calls, objects or threads; it must still fail reliably.",
  "surface": "Make them the kind of mistake a maintainer could plausibly make, and spread them over the API SURFACE that the property reaches: (1) one in a less used way of doing the same thing (another constructor, another entry point or overload, a convenience wrapper, a trait implementation of a wrapper type, a conversion helper, a default value) while the common way stays correct; (2) one in code shared with other modules (a utility function, a constant, a trait default method, an error path) whose effect on THIS property is indirect; (3) one that changes WHAT is returned in a way that still looks plausible (order, duplicates, one element more or fewer, a value that is right modulo a period or a sign convention, a flag or a field of the result) rather than making the result grossly wrong.",
 }
 os.makedirs(root, exist_ok=True)
